@@ -59,6 +59,14 @@ type Episode struct {
 	NSigs   int          `json:"nsigs,omitempty"`  // signatures observed before the crash
 	AtIndex uint32       `json:"at_index,omitempty"` // wallet-xmss: index at which they are taken
 	Forms   []string     `json:"forms,omitempty"`  // restore paths exercised
+	// Sibling (wallet-xmss): before the wallet's key is created the process builds
+	// a key from the SAME seed with another hash function. Companion: after the
+	// wallet's key was observed, another wallet is created the same way with other
+	// parameters, and the first one is observed again. Neither may influence the
+	// wallet's key: its observations are compared with a reference run of the
+	// episode without these, in a fresh process.
+	Sibling   bool `json:"sibling,omitempty"`
+	Companion bool `json:"companion,omitempty"`
 	// Traffic (wallet-xmss): the process that restores the wallet first serves
 	// some unrelated stateless calls (address checks, verifications incl. one with
 	// another Winternitz parameter on an input of this key's height)
